@@ -91,6 +91,7 @@ theorem get_amounts_removed_eq (s : St) (lp m1 m2 : Nat) :
     KPair.get_amounts_removed m1 lp m2 s.r1 s.S s.r2 = amountsRemoved s lp m1 m2 := by
   have hL : MINLIQ = 1000 := rfl
   unfold KPair.get_amounts_removed amountsRemoved
+  try simp only [KPair.quote]   -- a maintainer may (or may not) route these proportions through the `quote` helper
   rw [hL]
   generalize s.r1 = r1
   generalize s.r2 = r2
@@ -136,6 +137,7 @@ theorem addLiq_runs_source {s s' : St} {a1 a2 m1 m2 : Nat} {o : Out} (hS : s.S â
   show KPair.pool_add_liquidity o1 o2 s.r1 s.S s.r2 = some (min (o1 * s.S / s.r1) (o2 * s.S / s.r2),
     s.r1 + o1, s.S + min (o1 * s.S / s.r1) (o2 * s.S / s.r2), s.r2 + o2)
   unfold KPair.pool_add_liquidity
+  try simp only [KPair.quote]   -- a maintainer may (or may not) route these proportions through the `quote` helper
   k_solve
 
 /-- a successful model first deposit is a successful run of the source's
@@ -151,6 +153,7 @@ theorem firstMint_runs_source {s s' : St} {a1 a2 lp : Nat}
   show KPair.pool_add_initial_liquidity a1 a2 s.r1 s.r2 =
     some (min a1 a2 - MINLIQ, s.r1 + a1, min a1 a2, s.r2 + a2)
   unfold KPair.pool_add_initial_liquidity
+  try simp only [KPair.quote]   -- a maintainer may (or may not) route these proportions through the `quote` helper
   rw [hL]
   k_solve
 
@@ -171,6 +174,7 @@ theorem removeLiq_runs_source {s s' : St} {lp m1 m2 : Nat} {o : Out}
   show KPair.pool_remove_liquidity m1 lp m2 s.r1 s.S s.r2 =
     some (lp * s.r1 / s.S, lp * s.r2 / s.S, s.r1 - lp * s.r1 / s.S, s.S - lp, s.r2 - lp * s.r2 / s.S)
   unfold KPair.pool_remove_liquidity
+  try simp only [KPair.quote]   -- a maintainer may (or may not) route these proportions through the `quote` helper
   rw [get_amounts_removed_eq, hrem]
   k_solve
 
